@@ -1,2 +1,14 @@
-/-! Driver for C21 (stub: not built yet). -/
-def main : IO Unit := pure ()
+import Drivers.Proto
+import PymocaVerif.Model.CacheStateJson
+/-! Driver for C21: crash / truncation histories on the `CacheState` model, the exception
+    conversion of `load_model`, and two-call schedules on the byte-level `CacheFile` model. -/
+open Lean Drivers
+
+def handle (req : Json) : Except String Json := do
+  match ← getStr req "op" with
+  | "cache.run" => PymocaVerif.CacheState.runJson req
+  | "cache.convert" => PymocaVerif.CacheState.convertJson req
+  | "file.run" => PymocaVerif.CacheFile.fileRunJson req
+  | o => throw s!"unknown-op {o}"
+
+def main : IO Unit := serve handle
